@@ -173,6 +173,8 @@ static int cmp_cb(const void * a, const void * b, void * priv)
     return h_cmp_result(ka, kb);
 }
 
+static int null_scratch;
+
 static void swap_cb(void * a, void * b, void * t, size_t len)
 {
     char sa[24], sb[24], ev[64];
@@ -180,7 +182,14 @@ static void swap_cb(void * a, void * b, void * t, size_t len)
 
     ca = loc(a, sa, sizeof(sa));
     cb = loc(b, sb, sizeof(sb));
-    if ((unsigned char *)t != cur_scr || len != esz) {
+    /* `rawn`: the client's swap function ignores the scratch argument (the documentation allows
+     * it) and the client passes NULL for it; the exchange goes through the client's own buffer */
+    if (null_scratch) {
+        if (t != NULL || len != esz) {
+            logbad = 1;
+        }
+        t = cur_scr;
+    } else if ((unsigned char *)t != cur_scr || len != esz) {
         logbad = 1;
     }
     nswap++;
@@ -305,7 +314,7 @@ static long run_op(int via_vec, int what, unsigned long algo)
         cur_scr = scratch;
         switch (what) {
         case OP_SORT:
-            cstl_raw_array_sort(base, count, esz, cmp_cb, &cookie, swap_cb, scratch,
+            cstl_raw_array_sort(base, count, esz, cmp_cb, &cookie, swap_cb, null_scratch ? NULL : scratch,
                                 (cstl_sort_algorithm_t)algo);
             break;
         case OP_SEARCH:
@@ -315,7 +324,7 @@ static long run_op(int via_vec, int what, unsigned long algo)
             r = (long)cstl_raw_array_find(base, count, esz, probe, cmp_cb, &cookie);
             break;
         case OP_REV:
-            cstl_raw_array_reverse(base, count, esz, swap_cb, scratch);
+            cstl_raw_array_reverse(base, count, esz, swap_cb, null_scratch ? NULL : scratch);
             break;
         }
     } else {
@@ -369,7 +378,12 @@ static long run_op(int via_vec, int what, unsigned long algo)
 
 static int via_of(const char * s)
 {
+    null_scratch = 0;
     if (!strcmp(s, "raw")) {
+        return 0;
+    }
+    if (!strcmp(s, "rawn")) {
+        null_scratch = 1;
         return 0;
     }
     if (!strcmp(s, "vec")) {
